@@ -145,6 +145,8 @@ pub struct World {
     events: Vec<Event>,
     threads: Vec<StdMutex<Option<thread::Thread>>>,
     next_task_id: StdMutex<usize>,
+    /// a Shuttle atomic used only as an explicit scheduling point
+    tick: AtomicBool,
 }
 
 // The World is only ever touched from the single OS thread that runs the Shuttle execution.
@@ -203,6 +205,7 @@ impl World {
             events: (0..o.events).map(|_| Event { flag: AtomicBool::new(false), wakers: StdMutex::new(vec![]) }).collect(),
             threads: (0..nt).map(|_| StdMutex::new(None)).collect(),
             next_task_id: StdMutex::new(1),
+            tick: AtomicBool::new(false),
             prog,
             opts,
             sink,
@@ -240,8 +243,8 @@ fn noop_waker() -> Waker {
 
 /// Drive the interpreter future of a THREAD task: it never awaits anything that can be pending
 /// (every blocking op is a synchronous Shuttle call), so a single poll completes it.
-fn thread_main(w: Arc<World>, me: usize) {
-    let mut fut = Box::pin(run_task(w, me, false));
+fn thread_main(w: Arc<World>, me: usize, ends: Ends) {
+    let mut fut = Box::pin(run_task(w, me, false, ends));
     let waker = noop_waker();
     let mut cx = Context::from_waker(&waker);
     match fut.as_mut().poll(&mut cx) {
@@ -292,7 +295,25 @@ impl Drop for ExitGuard {
     }
 }
 
-async fn run_task(w: Arc<World>, me: usize, is_async: bool) {
+/// The channel ends of one task. They are moved into the task's closure / future by its spawner
+/// (std-side, no Shuttle operation), so that a future that is dropped before its first poll
+/// (abort) drops its ends like any other captured value.
+pub struct Ends {
+    tx: Vec<Option<TxEnd>>,
+    rx: Vec<Option<mpsc::Receiver<i64>>>,
+}
+
+impl World {
+    fn take_ends(&self, t: usize) -> Ends {
+        let nc = self.prog.objs.chans.len();
+        Ends {
+            tx: (0..nc).map(|c| self.tx[c][t].lock().unwrap().take()).collect(),
+            rx: (0..nc).map(|c| if self.prog.tasks[t].rx.contains(&c) { self.rx[c].lock().unwrap().take() } else { None }).collect(),
+        }
+    }
+}
+
+async fn run_task(w: Arc<World>, me: usize, is_async: bool, ends: Ends) {
     let _exit_guard = ExitGuard { sink: w.sink.clone(), me };
     let wr: &World = &w;
     let prog: &Prog = &wr.prog;
@@ -321,11 +342,8 @@ async fn run_task(w: Arc<World>, me: usize, is_async: bool) {
         wr.sink.with_current(|l| l.initial_world = Some((my_tid, cs, c.time.iter().copied().collect())));
     }
 
-    // take this task's channel ends
-    let mut my_tx: Vec<Option<TxEnd>> = (0..prog.objs.chans.len()).map(|c| wr.tx[c][me].lock().unwrap().take()).collect();
-    let mut my_rx: Vec<Option<mpsc::Receiver<i64>>> = (0..prog.objs.chans.len())
-        .map(|c| if def.rx.contains(&c) { wr.rx[c].lock().unwrap().take() } else { None })
-        .collect();
+    // this task's channel ends (declared first: dropped last if the future is cancelled)
+    let Ends { tx: mut my_tx, rx: mut my_rx } = ends;
     let mut mg: Vec<Option<MutexGuard<'_, i64>>> = (0..prog.objs.mutexes).map(|_| None).collect();
     let mut rg: Vec<Option<RwG<'_>>> = (0..prog.objs.rwlocks).map(|_| None).collect();
     let mut handles: Vec<Option<Handle>> = (0..nt).map(|_| None).collect();
@@ -600,14 +618,15 @@ async fn run_task(w: Arc<World>, me: usize, is_async: bool) {
                 } else {
                     let w2 = w.clone();
                     let t2 = *t;
+                    let ends2 = wr.take_ends(t2);
                     match prog.tasks[t2].kind {
                         TaskKind::Thread => {
-                            let h = thread::Builder::new().name(format!("T{t2}")).spawn(move || thread_main(w2, t2)).unwrap();
+                            let h = thread::Builder::new().name(format!("T{t2}")).spawn(move || thread_main(w2, t2, ends2)).unwrap();
                             *wr.threads[t2].lock().unwrap() = Some(h.thread().clone());
                             handles[t2] = Some(Handle::Thread(h));
                         }
                         TaskKind::Async => {
-                            let h = sfuture::spawn_local(async move { run_task(w2, t2, true).await });
+                            let h = sfuture::spawn_local(run_task(w2, t2, true, ends2));
                             handles[t2] = Some(Handle::Fut(h));
                         }
                     }
@@ -652,6 +671,9 @@ async fn run_task(w: Arc<World>, me: usize, is_async: bool) {
                 0
             }),
             Op::Unpark(t) => Some({
+                // whether `t` has been spawned is read from a std-side table: put a scheduling point in
+                // front of that read so that it is a visible operation like any other
+                let _ = wr.tick.load(Ordering::SeqCst);
                 let th = wr.threads[*t].lock().unwrap().clone();
                 match th {
                     Some(th) => {
@@ -813,7 +835,8 @@ pub fn body(prog: Arc<Prog>, sink: Sink, opts: Opts) -> impl Fn() + Send + Sync 
             ..Default::default()
         });
         let w = World::new(prog.clone(), sink.clone(), opts);
-        thread_main(w, 0);
+        let ends = w.take_ends(0);
+        thread_main(w, 0, ends);
     }
 }
 
@@ -823,7 +846,9 @@ pub fn classify_panic(msg: &str, spawn_ids: &[Option<usize>]) -> Termination {
         let mut set = vec![];
         // each item contains "(task N" — map N back to the logical task
         for part in rest.split("(task ").skip(1) {
-            let num: String = part.chars().take_while(|c| c.is_ascii_digit()).collect();
+            // the id is printed with TaskId's Debug impl: `TaskId(3)` or `"name"(3)`
+            let Some(open) = part.find('(') else { continue };
+            let num: String = part[open + 1..].chars().take_while(|c| c.is_ascii_digit()).collect();
             if let Ok(id) = num.parse::<usize>() {
                 match spawn_ids.iter().position(|x| *x == Some(id)) {
                     Some(l) => set.push(l),
